@@ -297,6 +297,12 @@ type lane struct {
 	c     *client.IPClient
 	done  chan error // result of the running MeasureClockOffsetIP call, nil when none
 	rng   *mrand.Rand
+	// a client that turns down the server's genuine responses makes every call run
+	// into its deadline: after three such calls in a row the lane goes on with short
+	// deadlines and without trying to reach interleaved mode (the records still tell
+	// what the client did with each crafted datagram)
+	failed int
+	fast   bool
 }
 
 const (
@@ -379,7 +385,11 @@ func (l *lane) startCall() {
 				done <- fmt.Errorf("panic: %v", x)
 			}
 		}()
-		ctx, cancel := context.WithTimeout(context.Background(), 3*time.Second)
+		dl := 3 * time.Second
+		if l.fast {
+			dl = 150 * time.Millisecond
+		}
+		ctx, cancel := context.WithTimeout(context.Background(), dl)
 		defer cancel()
 		laddr := &net.UDPAddr{IP: l.ip}
 		raddr := &net.UDPAddr{IP: l.ip, Port: proxyPort}
@@ -398,8 +408,15 @@ func (l *lane) nextRequest(buf []byte) (req []byte, from *net.UDPAddr, ok bool) 
 			return bytes.Clone(buf[:n]), a, true
 		}
 		select {
-		case <-l.done:
+		case err := <-l.done:
 			l.done = nil
+			if err != nil {
+				if l.failed++; l.failed >= 3 {
+					l.fast = true
+				}
+			} else {
+				l.failed = 0
+			}
 			// a datagram may still sit in the socket: it belongs to an attempt that is over
 			return nil, nil, false
 		default:
@@ -569,7 +586,7 @@ func (l *lane) runCase(c *c05case, out *vio.Out, stale *ntp.Time64) (nok int, il
 		l.newClient()
 	}
 	if c.Il {
-		for i := 0; i < 3 && !l.c.InInterleavedMode(); i++ {
+		for i := 0; i < 3 && !l.c.InInterleavedMode() && !l.fast; i++ {
 			l.startCall()
 			l.finish()
 		}
@@ -692,7 +709,14 @@ func TestC05Nts(t *testing.T) {
 		}()
 	}
 	wg.Wait()
-	t.Logf("C05nts: %d cases run (of %d), %d accepted datagrams, %d interleaved requests, %d lanes", nrun, len(cases), nok, nil_, nl)
+	nfast := 0
+	for _, l := range lanes {
+		if l.fast {
+			nfast++
+		}
+	}
+	t.Logf("C05nts: %d cases run (of %d), %d accepted datagrams, %d interleaved requests, %d lanes (%d gave up on genuine responses)",
+		nrun, len(cases), nok, nil_, nl, nfast)
 	if nrun == 0 {
 		t.Fatal("no realisable case")
 	}
